@@ -262,6 +262,11 @@ DIRECTED_TT = [
     'empty @late(int x) { try { !leaf(x); write("2"); } stop { write("S"); } write(","); }\nint @later(int x) { try { !mid(x); return 1; } stop { write("T"); } return 0; }\n',
     'int !v(int x) { if (x > 2) { !is_defeat(); } return x + 1; }\nint @a1(int x) { try { return !v(x); } undo { write("u"); } return 0 - 1; }\n'
     'int @a2(int x) { try { return !v(x) * 2; } stop { write("s"); } return 0 - 2; }\nempty @is_you(int a, int b) { write(@a1(a)); write(@a1(b + 1)); write(@a2(a)); write(@a2(b + 1)); write(@a1(a + b)); }\n',
+    # the only defeat source of a try body is a defeat call inside an if / while / for condition (or a for continuation); the handler leaves differently
+    'bool !small(int n) { !truth_is_defeat(n > 2); return n < 2; }\nint @cls(int n) { try { if (!small(n)) { return 1; } return 2; } stop { write("big"); } return 3; }\n'
+    'int @cls2(int n) { try { while (!small(n)) { return 4; } return 5; } undo { write("u"); } return 6; }\nint @cls3(int n) { for (int i = 0; i < 3; i += 1) { try { for (int j = n; !small(j); j += 1) { return 7; } return 8; } stop { write("s"); } write(i); } return 9; }\n'
+    'int @cls4(int n) { while (true) { try { if (!small(n)) { return 10; } return 11; } stop { break; } } write("after"); return 12; }\n'
+    'empty @is_you(int a, int b) { write(@cls(a)); write(@cls(b)); write(@cls2(a)); write(@cls2(b)); write(@cls3(a)); write(@cls3(b)); write(@cls4(a)); write(@cls4(b)); write("."); }\n',
 ]
 
 
